@@ -13,6 +13,9 @@ TRACE = ("TLA+ layer-1 specification (spec/api/AutogApi.tla) as oracle: every re
 
 CHECKS = {
     # id: (technique, level text, level note, design ref)
+    "C01": ("TLC trace validation: after Call only Return is a behaviour of AutogApi (Panic only for the documented panics, Abort never, Return within BudgetMs); isolated restartable workers with wall-clock and heap watchdog",
+            "Every case runs in a disposable worker process; a panic is recovered and recorded, a stack overflow / OOM / hang is observed from outside and recorded as Abort attributed to the last Call without completion; TLC accepts the trace only if every Call is followed by a Return within the spec's budget. Inputs: TLC-enumerated canonical multigraphs x random points of the full option grid incl. node-ID alphabets, random multigraphs up to 40 nodes, size sweeps (chains to 1000/3000, ladders with > 64 layers, 90-150 node graphs). " + TRACE,
+            "Budgets are spec constants (BudgetMs) >= 9x the slowest measured run; a watchdog overrun only counts after the case overran again alone with 3x the budget. Known findings (spline router) are listed in known_findings.json by call site.", "8/C01"),
     "C02": ("TLC trace validation of real Layout runs against the layer-1 predicate C02 (OutNodes, OutEdges, OutSizes, LoopsUnrouted); TLC-enumerated canonical edge lists",
             "Every canonical multigraph edge list up to the bound (E(4,4) quick, E(4,5) thorough) and seeded random larger ones are run through the real Layout under a rotating option grid; TLC decides on every Return record whether node set, edge bag, directions and sizes equal the input's. " + TRACE,
             "Exhaustive only below the stated bound; beyond it a seeded sample. Trusts TLC, the Json module and the driver's faithful logging.", "8/C02"),
@@ -21,19 +24,43 @@ CHECKS = {
             "LayerSpacing > 0 only (as the property states). Exhaustive below the bound, sampled beyond.", "8/C03"),
     "C04": ("TLC trace validation against C04 (FiniteNonNeg, NoOverlap, BandSpacing, ComponentSpacing)",
             "Pairwise rectangle disjointness, in-band spacing and component spacing are evaluated by TLC on every returned layout of the size-aware positioners over heterogeneous sizes (zero, very wide, odd) and NodeSpacing {0,1,10}. " + TRACE,
-            "Integer sizes and spacings (exact dyadic coordinates); Brandes-Koepf excluded as the property states.", "8/C04"),
+            "Integer sizes and spacings (exact dyadic coordinates); Brandes-Koepf excluded as the property states; the network-simplex positioner is exercised up to 36 nodes+edges (it needs minutes beyond).", "8/C04"),
     "C05": ("TLC trace validation against C05 (Anchors incl. arrow end at ToID, FinitePoints)",
             "First/last route point against bottom-centre/top-centre of the upper/lower endpoint and arrow flag against FromID/ToID, exact on the 1/64 grid, for every routed edge of every run. " + TRACE,
-            "Judged for edges whose endpoints lie in different bands (otherwise C03 reports). Spline inner control points are not part of this property.", "8/C05"),
+            "Judged for edges whose endpoints lie in different bands (otherwise C03 reports). Spline routing only on the share of inputs its router survives (known findings of C01).", "8/C05"),
     "C06": ("TLC trace validation against C06 (per-style shape predicates, one helper node per bend)",
             "Straight = 2 points; polyline = one bend per intermediate band inside the band's y-range, monotone, not strictly inside a node, helper node at each bend when requested; ortho = axis-parallel segments; splines = 4k points joined end to end. " + TRACE,
             "Size-aware positioners only (as stated).", "8/C06"),
+    "C07": ("TLC trace validation against the history invariants Deterministic and InputUntouched of AutogApi over groups of repeated calls (same process and fresh process)",
+            "Each case is executed 3x (quick) / 6x (thorough) in one process and again in a second fresh process; the merged trace must be a behaviour of AutogApi, whose Return of a repetition is enabled only if node order, bit-exact coordinates, routes and flags equal the reference's and the caller's edge slice and size map are unchanged. " + TRACE,
+            "Map-iteration nondeterminism shows only on some runs: a sample of schedules, not all. Random greedy excluded as the property states.", "8/C07"),
+    "C08": ("TLC trace validation against the history invariant RenameEquivariant (bags of bit-exact node rectangles and routes modulo the renaming)",
+            "Each canonical input is run with plain names and with adversarial injective renamings (helper alphabets V<k>/NE<k>, empty string, 300-char, Unicode/control); TLC compares the drawings modulo the renaming. " + TRACE,
+            "Judged only when the reference is stable (rule 8b: mismatching groups are re-run with 20 more repetitions of the reference).", "8/C08"),
+    "C09": ("TLC trace validation against the history invariants ComponentIndependent and SideBySide over groups {solo runs of the parts, run on the interleaved union}",
+            "Disjoint unions of 2-3 connected parts with order-preserving interleavings; TLC requires every part of the union drawing to equal the solo drawing up to one horizontal translation and the component extents to be NodeSpacing apart. " + TRACE,
+            "Parts from E(3,3)/E(4,4)/random; sampled pairs, not all pairs. Judged only when the solo runs are stable.", "8/C09"),
+    "C10": ("TLC trace validation against C10 (Optimal via brute-force MinTotalSpan for n<=5 and LP-duality certificate checked in TLA+ beyond; Contiguous)",
+            "Total span recomputed by TLC from band indices and compared with the optimum over all feasible layerings: brute force inside TLC for n<=5, otherwise an untrusted primal/dual certificate attached by the driver and verified by the TLA+ predicate CertOK (feasibility, flow balance, strong duality). Runs that ended on the iteration cap (hook) are not judged. " + TRACE,
+            "The certificate solver is untrusted (a bad certificate is exit 2). Weights and minimum lengths are 1 in phase 2.", "8/C10"),
+    "C11": ("TLC trace validation against C11 (BandIsHeightToSink, BandCount) with GraphOps!HeightToSink on the drawn orientation",
+            "Band-from-bottom of every node compared by TLC with the longest path to a sink in the drawn (cycle-broken) orientation, per component. " + TRACE,
+            "Judged when the drawn orientation is acyclic and LayerSpacing > 0 (bands recovered from Y).", "8/C11"),
+    "C12": ("TLC trace validation against C12 (sum of reported 'crossings' monitor events = crossings recounted by TLC on the returned polylines)",
+            "TLC recounts strict inversions between adjacent bands from node and bend x-coordinates of the returned drawing and compares with the monitor's reported count, incl. ladders with 66-130 layers. " + TRACE,
+            "Simple graphs, size-aware positioners, NodeSpacing > 0, Polyline (as stated); judged when every polyline has one point per band it touches.", "8/C12"),
+    "C13": ("TLC trace validation against C13 (tree => zero drawn crossings); all rooted trees n<=6 x orientations x edge orders generated by TLC",
+            "Every rooted tree on 4-6 nodes in both orientations and every edge order (TLC-generated) plus random trees to 60 nodes; TLC counts the crossings of each returned drawing. " + TRACE,
+            "Exhaustive for n <= 6, sampled beyond.", "8/C13"),
     "C14": ("TLC trace validation against C14 (Irredundant via reachability in the drawn orientation, DagUntouched)",
             "For every reversed edge TLC checks that un-reversing it alone closes a directed cycle among the edges as drawn (multigraph-aware), and that acyclic inputs come back without reversed edge, over all cyclic/acyclic lists of the exhaustive family and random multigraphs. " + TRACE,
             "Exhaustive below the bound, sampled beyond.", "8/C14"),
     "C16": ("TLC trace validation against C16 (BandExtent, LeftmostAtZero, MidpointsCoincide, RightEndsCoincide)",
             "Exact arithmetic identities of the two simple positioners evaluated by TLC on every band (helper nodes included) of every connected input of the families x widths x NodeSpacing. " + TRACE,
             "Connected inputs with virtual-node output (as stated).", "8/C16"),
+    "C17": ("TLC trace validation against the history invariant ScaleEquivariant (bit-exact equality after dividing by the scale)",
+            "Each case is run at scale 1 (3x) and at scales 2^k, k in -3..6; the driver divides the output by 2^k and TLC requires bit-exact equality of every coordinate and route point plus equal order and flags. " + TRACE,
+            "Positioners and routers as stated by the property; judged only when the reference is stable.", "8/C17"),
 }
 
 PENDING = {}
